@@ -40,7 +40,7 @@ def required_cells(tier):
             'linenos:file-relative', 'wrapper:google', 'wrapper:freeform', 'multi-line-want', 'eval-mode', 'single-mode',
             'digits:1', 'digits:2', 'digits:3', 'digits:4', 'display-leaves-doctest-unchanged', 'corpus:repo', 'want-with-trailing-blanks',
             'linenos:session=True,call=False', 'linenos:session=True,call=None', 'linenos:session=False,call=None',
-            'gutter:prompts=False,wants=True', 'gutter:prompts=True,wants=True', 'gutter:prompts=False,wants=False'] + (
+            'gutter:prompts=False,wants=True', 'gutter:prompts=True,wants=True', 'gutter:prompts=False,wants=False', 'directed-docstrings'] + (
                 ['corpus:stdlib'] if tier == 'thorough' else [])
 
 
@@ -99,11 +99,31 @@ def layout_with_values(rng, stmts, ref):
     return layout, doc, info
 
 
-def check_case(ctx, index, case_seed):
-    rng, stmts, ref = gen_case(case_seed)
-    layout, doc, info = layout_with_values(rng, stmts, ref)
+# docstrings written by hand for shapes the random layouts meet too rarely in the quick tier
+DIRECTED_DOCS = [
+    # prose between two chunks; the first holds a comment in front of an else, the second ends in a comment line behind
+    # an evaluated expression (the display drops the prose, the two chunks become one: finding F38b)
+    '>>> x = 1\n>>> if x < 0:\n>>>     print("neg")\n>>> # otherwise\n>>> else:\n>>>     print("pos")\n\nprose between\n\n'
+    '>>> x + 1\n>>> # the value is shown\npos\n2\n',
+    '>>> def deco(f): return f\n>>> @deco\n>>> # about the function\n>>> def f(): return 5\n\nprose between\n\n>>> f()\n>>> # echoed\n5\n',
+]
+
+
+class _FixedLayout(object):
+    wrapper = 'freeform'
+
+
+def check_case(ctx, index, case_seed, directed=None):
+    if directed is not None:
+        rng = random.Random(case_seed)
+        doc = DIRECTED_DOCS[directed]
+        wl = [ln for ln in doc.split('\n') if ln and not ln.startswith(('>>>', '...')) and ln != 'prose between']
+        layout, info = _FixedLayout(), {'style': 'freeform', 'features': [], 'wants': {0: wl}}
+    else:
+        rng, stmts, ref = gen_case(case_seed)
+        layout, doc, info = layout_with_values(rng, stmts, ref)
     L = rng.choice([1, rng.randint(2, 9), rng.randint(10, 99), rng.randint(100, 999), rng.randint(1000, 2000)])
-    case = {'index': index, 'case_seed': case_seed, 'doc': doc, 'lineno': L, 'features': info['features']}
+    case = {'index': index, 'case_seed': case_seed, 'doc': doc, 'lineno': L, 'features': info['features'], 'directed': directed}
     ctx.evaluation()
 
     def bad(mech, msg, **kw):
@@ -346,6 +366,10 @@ def run_shard(ctx):
     n = ctx.pick(3000, 50000)
     for idx in ctx.my_indices(n):
         check_case(ctx, idx, ctx.case_seed(idx))
+    if ctx.shard == 0:
+        for k in range(len(DIRECTED_DOCS)):
+            check_case(ctx, -1 - k, 17 + k, directed=k)
+            ctx.cell('directed-docstrings')
     import os
     import sysconfig
     from xv.props import c13
@@ -362,7 +386,7 @@ def replay(case, ctx):
     if 'corpus' in case:
         check_corpus(ctx, case['corpus'], [case['file']])
         return
-    check_case(ctx, case['index'], case['case_seed'])
+    check_case(ctx, case['index'], case['case_seed'], directed=case.get('directed'))
 
 
 def classify(v):
